@@ -29,7 +29,7 @@ def base(a, mul, add):
     return (a * mul + (a // 64) * 13 + add) % 256
 
 
-ORIGINS = ('direct', 'empty-game', 'p8', 'p8-map-first', 'p8-label-last', 'p8-label-first', 'png')
+ORIGINS = ('direct', 'empty-game', 'p8', 'p8-map-first', 'p8-label-last', 'p8-label-first', 'png', 'p8-no-map', 'p8-no-gfx', 'p8-no-label')
 _LOADED = {}
 
 
@@ -62,8 +62,11 @@ def loaded_game(origin, mul, add, tmp):
                 order = {'p8': ['lua', 'gfx', 'label', 'gff', 'map', 'sfx', 'music'],
                          'p8-map-first': ['lua', 'map', 'gfx', 'gff', 'label', 'sfx', 'music'],
                          'p8-label-last': ['lua', 'gfx', 'gff', 'map', 'sfx', 'music', 'label'],
-                         'p8-label-first': ['label', 'lua', 'music', 'sfx', 'gfx', 'map', 'gff']}[origin]
-                if sorted(order) != sorted(secs):
+                         'p8-label-first': ['label', 'lua', 'music', 'sfx', 'gfx', 'map', 'gff'],
+                         'p8-no-map': ['lua', 'gfx', 'label', 'gff', 'sfx', 'music'],          # (sections PICO-8 leaves out when blank)
+                         'p8-no-gfx': ['lua', 'gff', 'map', 'sfx', 'music'],
+                         'p8-no-label': ['lua', 'gfx', 'gff', 'map', 'sfx', 'music']}[origin]
+                if not set(order) <= set(secs) or (not origin.startswith('p8-no') and sorted(order) != sorted(secs)):
                     raise core.MachineryError('C17: .p8 sections %s' % sorted(secs))
                 with open(fp, 'wb') as f:
                     f.write(head + b''.join(secs[k] for k in order))
